@@ -24,8 +24,7 @@ LEVEL_TEXT = ('Every handle-use site, every creation site, all 48 cells of the a
 LEVEL_NOTE = 'trusted: clang front end, normaliser, abstract interpreter (ESP-style merging keyed on the access facts); alias assumption on OSObject* locals'
 
 WRITE_ENTRY = {'SoftHSM::C_DestroyObject': 'Write', 'SoftHSM::C_SetAttributeValue': 'Write'}
-EXCEPT_MECHPARAM = {('SoftHSM::deriveSymmetric', 'otherKey'):
-                    'second key of CKM_CONCATENATE_BASE_AND_KEY: no handle to a private object exists outside the USER states (C11.R2/R5, C01.R5) and its value is only read through Token::decrypt (C01.R4)'}
+EXCEPT_MECHPARAM = {}      # the second key of CKM_CONCATENATE_BASE_AND_KEY was excepted here until F38 gave it an access check of its own
 
 
 def session_var_ok(fn, svar):
@@ -69,9 +68,8 @@ def r1_access(ctx, prog):
                 why = EXCEPT_MECHPARAM.get((q, var))
                 if why:
                     r.excepted(q, 'object %s' % var, why, file=f['file'], line=o['handles'][0][1])
-                else:
-                    r.violation(q, 'object %s' % var, 'object obtained from a handle that is neither a parameter nor an own output handle (%s) and is used without access check' % (o['handles'],), file=f['file'], line=o['handles'][0][1])
-                continue
+                    continue
+                # a handle taken from a mechanism parameter (the second key of CKM_CONCATENATE_BASE_AND_KEY): no caller can have checked it, the check must dominate the uses here
             kind = WRITE_ENTRY.get(q, '(Read|Write)')
             rx = ch.access_fact_rx(var, kind)
             for site, hits in sorted(o['uses'].items()):
@@ -97,7 +95,7 @@ def r1_access(ctx, prog):
         idx = param_index(f, hp)
         why = None
         if q.startswith('SoftHSM::C_') or idx is None:
-            why = 'entry point'
+            why = 'entry point' if idx is not None or q.startswith('SoftHSM::C_') else 'the handle comes from a mechanism parameter, no caller can have checked it'
         else:
             callers = [(g, c) for g in prog.functions.values() for c in calls(g['body'], callee=q)]
             if not callers:
